@@ -350,6 +350,14 @@ class Tables:
             vi = ntn.index(kind)
             n = len(nt["variants"][vi]["fields"])
             return Variant(TL, tln.index("Native"), "Native", [Variant(NT, vi, kind, [Opaque("%s.%d" % (tag, i)) for i in range(n)])])
+        if kind == "List":
+            # a list type stands for "[int...]": whether a list has `==` depends on what it can hold (C13.element-equality decides the other element types)
+            lt = F.adt("compiler::ast::list::ListType")
+            if lt is not None and "Int" in ntn:
+                ltn = [v["name"] for v in lt["variants"]]
+                if "Open" in ltn:
+                    elem = Variant("alloc::borrow::Cow", 1, "Owned", [self.tl_value("Int", tag + ".elem")])
+                    return Variant(TL, tln.index("List"), "List", [Variant("compiler::ast::list::ListType", ltn.index("Open"), "Open", [elem])])
         vi = tln.index(kind)
         n = len(tl["variants"][vi]["fields"])
         return Variant(TL, vi, kind, [Opaque("%s.%s.%d" % (tag, kind, i)) for i in range(n)])
